@@ -11,7 +11,7 @@ def plan(tier):
     qs = [
         Q(P, 2, ['****']),                                # reversible toggle a/-a (default 1), toggle b without letter
         Q(P, 2, ['--no-?']), Q(P, 2, ['--no-a', '***']), Q(P, 2, ['--a', '***']), Q(P, 2, ['-a', '--b', '--no-?'], wit=(W_ERR,)),
-        Q(P, 1, ['-*****']),                              # counts across bundles of x and y
+        Q(P, 1, ['-****']),                               # counts across bundles of x and y
         Q(P, 1, ['-x', '--a', '-**']),                    # mixed long/short/bundled spellings
         Q(P, 12, ['****'], wit=(W_OK, W_ERR)),            # toggle with default 2
         Q(P, 5, [], env={2: '********'}, k=10, more_profile=[[ord(c) for c in w] + [0] * (8 - len(w)) for w in ('WITHOUT', 'without', 'True', 'FALSE', 'yes', 'Off', '1', 'N')]),   # closed vocabulary: every string up to 8 bytes
@@ -21,7 +21,7 @@ def plan(tier):
         Q(P, 7, ['--o', '?'], env={1: '***'}),            # toggle default 2 + env
     ]
     if th:
-        qs += [Q(P, 2, ['***', '***'], **H), Q(P, 1, ['-******']), Q(P, 2, ['--no-?', '***', '--?'], **H), Q(P, 2, ['--?', '***', '--no-?'], **H),
+        qs += [Q(P, 2, ['***', '***'], **H), Q(P, 1, ['-*****']), Q(P, 1, ['-******']), Q(P, 2, ['--no-?', '***', '--?'], **H), Q(P, 2, ['--?', '***', '--no-?'], **H),
                Q(P, 10, ['***', '***'], **H), Q(P, 6, ['--no-?'], env={2: '****'})]
     return Runner(P, tier, [parser_unit('parser', qs, base_corpus(P))], bounds=dict(BOUNDS_NOTE, env_word='every byte string of length 0..8 for the bound variable'),
                   outside=OUTSIDE, assumptions=ASSUME)
